@@ -1,5 +1,6 @@
 """Panic-capable site inventory and reachability by partial evaluation over root regions (C16)."""
 import collections
+import re
 import os
 
 from .pe import Clos, Evaluator, SymObj, TupleV, explore
@@ -106,6 +107,58 @@ def enclosing_guards(fi, holder):
                                 out.append(("if", e["cond"], False))
             return out
     return []
+
+
+def guard_conjuncts(fi, holder):
+    """The path condition of `holder` inside fn fi as a list of whitespace-free conjunct strings: enclosing if / else / if-let
+    conditions and early exits before it (negated), with `&&` split, `!` pushed over `||`, and single-assignment boolean / value
+    locals replaced by their defining expression (so `let is_from = ctx.kind.is_from(); if !is_from {..}` reads `!ctx.kind.is_from()`)."""
+    from .src import render as _r, render_pat as _rp
+    defs = {}
+    counts = {}
+    for n in walk(fi.body):
+        if n["k"] == "Let" and n.get("init") is not None and n["pat"]["k"] in ("PIdent", "PType"):
+            p = n["pat"] if n["pat"]["k"] == "PIdent" else n["pat"]["pat"]
+            if p["k"] == "PIdent" and not p.get("mut"):
+                counts[p["name"]] = counts.get(p["name"], 0) + 1
+                if n["init"]["k"] not in ("Closure", "Match", "If", "Block", "Macro"):
+                    defs[p["name"]] = _r(n["init"]).replace(" ", "")
+    defs = {k: v for k, v in defs.items() if counts.get(k) == 1 and len(v) < 120}
+
+    def subst(t):
+        for _ in range(3):
+            t2 = re.sub(r"(?<![\w.])([a-z_]\w*)(?![\w(!])", lambda m: ("(" + defs[m.group(1)] + ")" if re.search(r"\|\||&&", defs[m.group(1)]) else defs[m.group(1)]) if m.group(1) in defs else m.group(1), t)
+            if t2 == t:
+                break
+            t = t2
+        return t
+
+    def conj(e, neg=False):
+        if not neg and e["k"] == "Binary" and e["op"] == "&&":
+            return conj(e["l"]) + conj(e["r"])
+        if neg and e["k"] == "Binary" and e["op"] == "||":
+            return conj(e["l"], True) + conj(e["r"], True)
+        if e["k"] == "Unary" and e["op"] == "!":
+            return conj(e["expr"], not neg)
+        if e["k"] == "Path" and len(e["segs"]) == 1 and e["segs"][0] in defs and not neg:
+            pass
+        if e["k"] == "LetExpr":
+            t = "let" + _rp(e["pat"]).replace(" ", "") + "=" + subst(_r(e["expr"]).replace(" ", ""))
+            return ["!(" + t + ")" if neg else t]
+        t = subst(_r(e).replace(" ", ""))
+        # a substituted conjunction: split again
+        if not neg and "&&" in t and e["k"] == "Path":
+            return [x.strip("()") for x in t.strip("()").split("&&")]
+        if neg:
+            t = "!" + (t if re.fullmatch(r"[\w.:&*]+(\([^()]*\))?", t) else "(" + t + ")")
+        return [t]
+    out = []
+    for g in enclosing_guards(fi, holder):
+        if g[0] == "if":
+            out += conj(g[1], not g[2])
+        else:
+            out.append("let" + _rp(g[2]["pat"]).replace(" ", "") + "=" + subst(_r(g[1]).replace(" ", "")))
+    return out
 
 
 def assume_guards(ev, fi, holder, env):
